@@ -19,7 +19,8 @@
           | "-"                            not compared (after a failed DML statement)
 
   Two further kinds of lines: `rule <TABLES> <IX> | <PLAN>` (what every transformation rule makes of the root of a plan) and
-  `ord <DELIVERED> <REQUIRED>` (PhysicalProperties::satisfies); their syntax is given where they are handled, below.
+  `ord <DELIVERED> <REQUIRED>` (PhysicalProperties::satisfies) and `jop <DB> | <join of t0 and t1>` (every physical join
+  operator run directly on two inputs); their syntax is given where they are handled, below.
 
   The specification is the reference evaluator of C05 run over the history: indexes, statistics, VACUUM and the
   placement of index creation do not exist in it (`stats_irrelevant`), a rolled-back session leaves no trace.
@@ -129,7 +130,8 @@ def planDefects (flags : List String) : Plan.Defects :=
     memoIgnoresPredicates := flags.contains "memoIgnoresPredicates"
     assocDropsBOnly := flags.contains "assocDropsBOnly"
     indexScanIgnoresNullable := flags.contains "indexScanIgnoresNullable"
-    orderingPrefixEitherWay := flags.contains "orderingPrefixEitherWay" }
+    orderingPrefixEitherWay := flags.contains "orderingPrefixEitherWay"
+    hashJoinNullEqualsNull := flags.contains "hashJoinNullEqualsNull" }
 
 /-- number of reachable plans checked, or the first plan that disagrees with the reference rows -/
 def crossCheck (D : Plan.Defects) (st : Store) (q : Select) (out : List Row) : Except String Nat :=
@@ -335,11 +337,51 @@ def ordStep (D : Plan.Defects) (line : String) : String :=
     | _, _ => "bad-op"
   | _ => "bad-op"
 
+/-! ### join operator cases: `jop <DB> | sel all j <kind> t0 t1 (on E | -) - g0 a0 star o0 lim- off-`
+
+    DB has two tables; the statement is their join, nothing else.  The harness runs every physical join operator the
+    implementation rules offer directly on the two tables' rows.
+    answer := OP "=" R (" ; " OP "=" R)*     OP := NestedLoopJoin | HashJoin | MergeJoin (the latter two for a condition that
+                                             is a conjunction of `column = column` over both inputs); R := `Rset:` rows | E<class>
+    Specification: every operator returns the rows of the join (the reference evaluator of C05). -/
+
+def jopStep (D : Plan.Defects) (line : String) : String :=
+  match words line with
+  | "jop" :: dbw :: "|" :: rest =>
+    match parseDb dbw with
+    | none => "bad-op"
+    | some db =>
+      if db.length != 2 then "bad-op" else
+      match pStmt db rest with
+      | some (.select q) =>
+        match q.from_ with
+        | .join k (.table 0) (.table 1) on =>
+          if !(q.where_.isNone && q.aggs.isEmpty && q.groupBy.isEmpty && q.items.isNone && q.orderBy.isEmpty
+                && q.limit.isNone && q.offset.isNone && !q.distinct) then "bad-op" else
+          let ref := match execAll {} nullsFirstOfEngine db [.select q] with
+            | [o] => showOutcome (.select q) o
+            | _ => "Eother"
+          let l := (db.getD 0 default).rows
+          let r := (db.getD 1 default).rows
+          let lw := (db.getD 0 default).tys.length
+          let rw := (db.getD 1 default).tys.length
+          match on.bind (equiKeys lw) with
+          | none => "NestedLoopJoin=" ++ ref
+          | some ks =>
+            let hash := if D.hashJoinNullEqualsNull && !ref.startsWith "E" then
+                "Rset:" ++ showRows true (hashJoin D k (ks.map (·.1)) (ks.map (·.2)) lw rw l r)
+              else ref
+            joinWith " ; " ["NestedLoopJoin=" ++ ref, "HashJoin=" ++ hash, "MergeJoin=" ++ ref]
+        | _ => "bad-op"
+      | _ => "bad-op"
+  | _ => "bad-op"
+
 end AxVerif.Plan
 
 namespace AxVerif.Drivers
 def plan (flags : List String) (line : String) : String :=
   if line.startsWith "rule " then AxVerif.Plan.ruleStep (AxVerif.Plan.planDefects flags) line
   else if line.startsWith "ord " then AxVerif.Plan.ordStep (AxVerif.Plan.planDefects flags) line
+  else if line.startsWith "jop " then AxVerif.Plan.jopStep (AxVerif.Plan.planDefects flags) line
   else AxVerif.Plan.step flags line
 end AxVerif.Drivers
